@@ -248,6 +248,22 @@ def get(tree, path):
     return tree
 
 
+def shared_mutables(a, b, path=()):
+    """Paths at which two parameter trees hold THE SAME dict / list /
+    array object."""
+    out = []
+    if isinstance(a, (dict, list, np.ndarray)) and a is b:
+        return [path]
+    if isinstance(a, dict) and isinstance(b, dict):
+        for k in a:
+            if k in b:
+                out += shared_mutables(a[k], b[k], path + (k,))
+    elif isinstance(a, list) and isinstance(b, list):
+        for i, (x, y) in enumerate(zip(a, b)):
+            out += shared_mutables(x, y, path + (i,))
+    return out
+
+
 def run_case(job, acc):
     ci, outcome, init_on, copy_procs, depth, generations = job
 
@@ -422,6 +438,16 @@ def run_case(job, acc):
     if p0 is p1:
         V('C11.independence', 'daughters-share-a-process-instance',
           f'{d0} and {d1} hold the same process object')
+    elif copy_procs:
+        # (daughters given explicit processes hold whatever the issuer
+        # built; copies of the mother's processes are the library's)
+        shared = shared_mutables(p0.parameters, p1.parameters)
+        if shared:
+            V('C11.independence', 'daughters-share-process-parameters',
+              f'the processes of {d0} and {d1} are distinct objects but '
+              f'share the mutable parameter objects at {shared[:3]}: '
+              f'changing one daughter\'s configuration changes her '
+              f'sister\'s')
     # independence: update one variable of daughter 0 only
     before = copy.deepcopy(probes.pure(ex.engine.state.get_value()))
     upd = independence_update(case, got0)
@@ -480,13 +506,32 @@ def independence_update(case, got0):
     return None
 
 
+def halves_divider(value, config=None, state=None):
+    """A user branch divider (dictionary form, with config): the first
+    config['first'] keys to daughter 0, the rest to daughter 1."""
+    keys = sorted(value)
+    n = (config or {}).get('first', len(keys) // 2)
+    return [{k: value[k] for k in keys[:n]},
+            {k: value[k] for k in keys[n:]}]
+
+
+BRANCH_FORMS = {
+    'string': 'split_dict',
+    'dict': {'divider': 'split_dict'},
+    'dict-user': {'divider': halves_divider, 'config': {'first': 1}},
+}
+
+
 def branch_case(job, acc):
-    """Branch-level divider: split_dict above a glob port."""
-    _, n_kids, copy_procs = job
-    label = {'case': 'branch:split_dict', 'kids': n_kids,
+    """Branch-level divider above a glob port: split_dict named by a
+    string, the same in dictionary form, and a user function in dictionary
+    form with a config."""
+    _, n_kids, copy_procs = job[:3]
+    form = job[3] if len(job) > 3 else 'string'
+    label = {'case': f'branch:{form}', 'kids': n_kids,
              'copy_processes': copy_procs, 'job': list(job)}
     cell = {'cls': 'P', 'pid': 'cell', 'ts': 1, 'log_states': False,
-            'schema': {'kids': {'_divider': 'split_dict',
+            'schema': {'kids': {'_divider': BRANCH_FORMS[form],
                                 '*': {'c': {'_default': 0,
                                             '_updater': 'set',
                                             '_emit': True}}}},
@@ -510,7 +555,7 @@ def branch_case(job, acc):
                 f'k{i}': {'c': i + 1} for i in range(n_kids)}}}},
             'script': [('update', 1)]}
     ex = worlds.execute(spec)
-    acc.case(key=('branch', n_kids, copy_procs), outcome='branch')
+    acc.case(key=('branch', n_kids, copy_procs, form), outcome='branch')
     if ex.error:
         acc.violate(fw.violation(
             'C11.crash', f'branch:{type(ex.error[2]).__name__}',
@@ -521,6 +566,16 @@ def branch_case(job, acc):
     k1 = agents.get('m1', {}).get('kids', {})
     want = {f'k{i}': {'c': i + 1} for i in range(n_kids)}
     merged = dict(k0, **k1)
+    if form == 'dict-user':
+        ok = (set(agents) == {'m0', 'm1'} and merged == want
+              and sorted(k0) == sorted(want)[:1]
+              and not set(k0) & set(k1))
+        if not ok:
+            acc.violate(fw.violation(
+                'C11.value', 'branch-dict-divider-ignored',
+                f'branch divider {{divider: halves, config: first=1}}: '
+                f'mother kids {want} -> {k0} / {k1}', label))
+        return
     if set(agents) != {'m0', 'm1'} or set(k0) & set(k1) or merged != want \
             or abs(len(k0) - len(k1)) > 1:
         acc.violate(fw.violation(
@@ -654,8 +709,9 @@ def run_job(job, acc):
 
 
 def run(ctx):
-    js = jobs(ctx) + [('branch', n, cp) for n in range(5)
-                      for cp in (False, True)] + topo_jobs()
+    js = jobs(ctx) + [('branch', n, cp, form) for n in range(5)
+                      for cp in (False, True)
+                      for form in BRANCH_FORMS] + topo_jobs()
     return ctx.map(run_job, js)
 
 
